@@ -171,6 +171,11 @@ func runC02(c *eng.Ctx) {
 	c.Rule("R02.3", "K1")
 	ruleFollowerAppendGuards(c)
 	c.Floor(8)
+	c.Rule("R02.2", "K2")
+	ruleFallbackTruncationAlwaysTruncates(c)
+	c.Rule("R02.5", "K1")
+	ruleAppendAssignsEpochsFromTheCache(c)
+	ruleAssignAcceptsOnNothingElse(c)
 
 	// ---- R02.4 leader side
 	c.Rule("R05.5", "K2")
